@@ -268,6 +268,62 @@ func runC05(e *core.Env, n int) {
 	for _, pr := range pending {
 		pr.Cancel()
 	}
+	pending = nil
+
+	// the handler returns at once; the client keeps sending until io.EOF and never closes its send side,
+	// reads the final status and is NOT cancelled: nothing of the library may remain
+	e.Cases("early-return", e.N(12, 60), func(i int, r *rand.Rand) {
+		c := carriers[i%2]
+		kind := pick(r, ClientStream, Bidi)
+		sc := &Script{Kind: kind}
+		if r.Intn(2) == 0 {
+			sc.Ret = Ret{How: "status", Code: uint32(1 + r.Intn(16)), Msg: "early failure"}
+		} else if kind == ClientStream {
+			sc.Handler = []Op{{Op: "send", Msg: &tpb.Message{Payload: []byte("early reply")}}}
+		}
+		big := &tpb.Message{Payload: make([]byte, 64<<10)}
+		for k := 0; k < 40; k++ {
+			sc.Sender = append(sc.Sender, Op{Op: "send-until-eof", Msg: big})
+		}
+		sc.Receiver = []Op{{Op: "recvall"}}
+		if kind == ClientStream {
+			sc.Receiver = []Op{{Op: "recv"}, {Op: "recv"}}
+		}
+		sc.RecvAfterSend = true
+		run := c.Svc.NewRun(sc, c.Name)
+		defer c.Svc.Forget(run)
+		done := make(chan struct{})
+		go func() {
+			run.Exec(c.CC, nil, 120*time.Second)
+			close(done)
+		}()
+		fin, stuck, dump := waitDoneOrStuck(done, 60*time.Second)
+		e.Eval(fmt.Sprintf("early-return|%s|%s|%s", c.Name, kind, sc.Ret.How), true)
+		if !fin {
+			if stuck {
+				e.Violate(c.Name+"/"+kind.String()+"/deadlock", "handler returned at once while the client kept sending: "+parkedSummary(dump), map[string]any{"events": run.Events(), "goroutines": trunc(dump, 20000)})
+			} else {
+				e.Inconclusive("C05 early-return %s: watchdog", c.Name)
+			}
+			forceEnd(run, done)
+			return
+		}
+		for _, ev := range run.Events() {
+			if ev.Pan != "" {
+				e.Violate(c.Name+"/"+kind.String()+"/panic/"+ev.Who+"."+ev.Op, trunc(ev.Pan, 500), nil)
+			}
+			if (ev.Who == "cs") && ev.Op == "send" && !ev.Call && ev.Err != nil && ev.Err != io.EOF {
+				e.Violate(c.Name+"/"+kind.String()+"/send-after-finish", fmt.Sprintf("a send racing with / following the handler's return gave %v (want nil or io.EOF)", ev.Err), map[string]any{"events": run.Events()})
+				break
+			}
+		}
+		checkLeaks(e, fmt.Sprintf("after a %s %s call whose handler returned early while the client was sending (client never closed its send side, call not cancelled)", c.Name, kind))
+		run.Cancel()
+		runtime.KeepAlive(run)
+	})
+	for _, pr := range pending {
+		pr.Cancel()
+	}
 	runtime.KeepAlive(pending)
 }
 
